@@ -457,8 +457,12 @@ class GrammarGen:
             return f(inner, self.sep(), self.chance(self.o["eol"]))
         if r < 0.86 + self.o["unord"]:
             n = self.rng.randrange(2, 4)
-            u = Unord([self.expr(d - 1, names_below, assign, attrs) for _ in range(n)], self.sep(),
-                      self.chance(self.o["eol"]))
+            es = [self.expr(d - 1, names_below, assign, attrs) for _ in range(n)]
+            if self.chance(0.3):
+                # mutually exclusive options as ONE element of the group: (a | (b | c) | d)#
+                j = self.rng.randrange(len(es))
+                es[j] = Alt([self.expr(0, names_below, assign, attrs) for _ in range(2)])
+            u = Unord(es, self.sep(), self.chance(self.o["eol"]))
             if self.chance(0.4):
                 u["altform"] = True      # written as an ordered choice: the same group
             return u
